@@ -658,6 +658,7 @@ def samplingW? (s : String) : Option (Option (Nat × Rat)) :=
   `c17.refine2 T C M K`                            scan lines of each track after refining the refined tracks again
   `c17.gauss skip w missing T C M K`               scan lines + minimum duration of each Gaussian-refined track
   `c17.fmt6 p/q`                                   value printed by `%.6e`
+  `c17.samples w off img [t,…] [c,…]`              `sample_from_image` of a track
   `c17.sample w off img t c`                       `_sum_track_signal` of one node  -/
 def handleFile (op px pxUm lt smp img t c m k : String) : Option String := do
   let ky ← kymo? px pxUm lt
@@ -729,6 +730,13 @@ def handle : List String → Option String
   | ["c17.fmt6", x] => do
     let x ← rat? x
     some (showRat (fmt6e x))
+  | ["c17.samples", w, off, img, ts, cs] => do
+    let w ← nat? w
+    let off : Rat ← if off == "1" then some (1 / 2) else if off == "0" then some 0 else none
+    let img ← intListList? img
+    let ts ← intList? ts; let cs ← ratList? cs
+    if ts.length != cs.length then none
+    else some (showIntList ((ts.zip cs).map fun p => sumSignal img w off p.1 p.2))
   | ["c17.sample", w, off, img, t, c] => do
     let w ← nat? w
     let off : Rat ← if off == "1" then some (1 / 2) else if off == "0" then some 0 else none
